@@ -1501,30 +1501,15 @@ impl<'arena> PrettyFormatter<'arena> {
     /// original source is unavailable, the caller falls back to normal
     /// formatting.
     fn format_verbatim(
-        &self, term: TermId, meta: &'arena Meta, inner: TermId,
+        &self, term: TermId, _meta: &'arena Meta, inner: TermId,
     ) -> Option<RcDoc<'arena>> {
         let source = self.source?;
         let (outer_start, _) = self.spans[&EntityId::Term(term)].get_cursor1();
-        let (inner_start, inner_end) = self.spans[&EntityId::Term(inner)].get_cursor1();
-        // The annotation ends with its last token; a `]` written in a comment
-        // between the annotation and the payload does not close it.
-        let annotation_end = crate::textual::LexicalTokens::new(source.get(outer_start..inner_start)?)
-            .filter(|token| {
-                !matches!(
-                    token.kind,
-                    crate::textual::LexicalTokenKind::Comment
-                        | crate::textual::LexicalTokenKind::TextBlock
-                )
-            })
-            .last()?
-            .range
-            .end
-            .checked_add(outer_start)?;
-        let boundary = source.get(annotation_end..inner_start)?;
-        let payload = source.get(inner_start..inner_end)?;
-        Some(
-            self.annotation_prefix(meta).append(RcDoc::text(boundary)).append(RcDoc::text(payload)),
-        )
+        let (_, inner_end) = self.spans[&EntityId::Term(inner)].get_cursor1();
+        // The annotation itself is copied as written, too: a comment inside its
+        // brackets has no other place to survive, since nothing inside a verbatim
+        // region is printed from the syntax tree.
+        Some(RcDoc::text(source.get(outer_start..inner_end)?))
     }
 
     /// The complete `@[...]` text of one annotation.
